@@ -421,6 +421,8 @@ Definition DISC_BV : list Z := [176; 177; 178; 179; 180; 181; 182; 183].
 Definition DISC_ST : list Z := [90].
 Definition DISC_NS : list Z := [222; 192; 222; 192].
 Definition DISC_SB : list Z := [164; 83; 66; 95; 115; 101; 116; 33].
+(* struct Zd { vec: Vec<u8> } of program PB with the all-zero discriminant 0u8 *)
+Definition DISC_ZD : list Z := [0].
 
 Definition run_c15_with (fixed : bool) (input : list Z) : list Z :=
   match input with
@@ -430,6 +432,7 @@ Definition run_c15_with (fixed : bool) (input : list Z) : list Z :=
       else if ty =? 2 then run_generic (list Z) c_st st_mut3 st_mut4 fixed PID_B 1 DISC_ST r
       else if ty =? 3 then run_generic TNs c_ns ns_mut3 ns_mut4 fixed PID_C 4 DISC_NS r
       else if ty =? 4 then run_generic (list Z) c_sb sb_mut3 sb_mut4 fixed PID_A 8 DISC_SB r
+      else if ty =? 5 then run_generic (list Z) c_bv bv_mut3 bv_mut4 fixed PID_B 1 DISC_ZD r
       else [-2]
   | [] => [-2]
   end.
